@@ -19,10 +19,36 @@ func init() {
 		x1, y1 := new(big.Int).SetBytes(unhx(a[0])), new(big.Int).SetBytes(unhx(a[1]))
 		x2, y2 := new(big.Int).SetBytes(unhx(a[2])), new(big.Int).SetBytes(unhx(a[3]))
 		x, y := cv.Add(x1, y1, x2, y2)
+		// the same call with big.Int OBJECTS shared between the arguments wherever the values allow it, and the
+		// arguments must come back unchanged
+		sx, sy := x2, y2
+		if x1.Cmp(x2) == 0 {
+			sx = x1
+		}
+		if y1.Cmp(y2) == 0 {
+			sy = y1
+		}
+		xa, ya := cv.Add(x1, y1, sx, sy)
+		if xa.Cmp(x) != 0 || ya.Cmp(y) != 0 {
+			return "DEPENDS-ON-ARGUMENT-ALIASING " + bigHex(x) + " " + bigHex(y) + " vs " + bigHex(xa) + " " + bigHex(ya)
+		}
+		if bigHex(x1) != a[0] && len(a[0]) == 64 || x1.Cmp(new(big.Int).SetBytes(unhx(a[0]))) != 0 || y1.Cmp(new(big.Int).SetBytes(unhx(a[1]))) != 0 ||
+			x2.Cmp(new(big.Int).SetBytes(unhx(a[2]))) != 0 || y2.Cmp(new(big.Int).SetBytes(unhx(a[3]))) != 0 {
+			return "ARGUMENT-MODIFIED"
+		}
 		return bigHex(x) + " " + bigHex(y)
 	}
 	opImpl["ad_double"] = func(a []string) string {
-		x, y := cv.Double(new(big.Int).SetBytes(unhx(a[0])), new(big.Int).SetBytes(unhx(a[1])))
+		x1, y1 := new(big.Int).SetBytes(unhx(a[0])), new(big.Int).SetBytes(unhx(a[1]))
+		x, y := cv.Double(x1, y1)
+		if x1.Cmp(y1) == 0 { // equal coordinates: also as one shared object
+			if xa, ya := cv.Double(x1, x1); xa.Cmp(x) != 0 || ya.Cmp(y) != 0 {
+				return "DEPENDS-ON-ARGUMENT-ALIASING"
+			}
+		}
+		if x1.Cmp(new(big.Int).SetBytes(unhx(a[0]))) != 0 || y1.Cmp(new(big.Int).SetBytes(unhx(a[1]))) != 0 {
+			return "ARGUMENT-MODIFIED"
+		}
 		return bigHex(x) + " " + bigHex(y)
 	}
 	opImpl["ad_smul"] = func(a []string) string {
